@@ -16,7 +16,7 @@ def run(res, f, tier):
     obligations = discharged = 0
     samples = []
     for kind, fn in sorted((k, fn_) for k, fns in ops.items() for fn_ in fns):
-        for combo, outs in sorted(t["cells"][fn].items()):
+        for combo, outs in sorted(t["cells_by_kind"][kind].items()):
             if "None" not in combo:
                 continue
             obligations += 1
